@@ -96,7 +96,8 @@ def eval_case(case):
     verts = np.array(fl(pl.points([(p[0], p[1], 0) for p in v])), dtype=float)
     ex = expected(rec, pl, nz)
     if variant == "explicit":
-        nvec = [float(3 * x) for x in ex["normal"]]      # deliberately not unit length
+        # deliberately not unit length: clearly (x 3), or by a few 1e-6 as a hand-typed or file-read unit normal would be
+        nvec = [float(x) * case.get("nlen", 3.0) for x in ex["normal"]]
     else:
         nvec = None
     snapshot = verts.copy()
